@@ -49,6 +49,14 @@ func runCtxCase(a args, idx int, r *h.Rand) {
 			// a second up command that succeeds: a failure of the first one must not be forgotten
 			ups = append(ups, tok(cx+"|up2"))
 		}
+		if !upFails && r.Chance(20) {
+			// a context that has nothing to bring up is still shut down
+			ups = nil
+			if info.NoUp == nil {
+				info.NoUp = map[string]bool{}
+			}
+			info.NoUp[cx] = true
+		}
 		down := tok(cx + "|down")
 		if r.Chance(30) {
 			down += "; exit 1" // a failing shutdown hook of one context says nothing about the others
